@@ -13,7 +13,7 @@ import time
 
 from . import common as C
 
-NPROC = min(16, os.cpu_count() or 4)
+NPROC = min(int(os.environ.get('MLPE_NPROC', '16')), os.cpu_count() or 4)
 
 
 def _init_worker():
